@@ -1370,17 +1370,34 @@ func (s *BgpServer) processRTCMembership(peer *peer, path *table.Path) {
 
 	rtKnownAfter := hasRt(rt)
 
-	if !path.IsWithdraw && rtKnownBefore || path.IsWithdraw && rtKnownAfter {
+	if !path.IsWithdraw && rtKnownBefore || path.IsWithdraw && (rtKnownAfter || !rtKnownBefore) {
+		// nothing changed: a duplicate / additional announcement, the withdrawal of one of several
+		// memberships for the RT, or the withdrawal of a membership that was never accepted
 		return
 	}
 
 	fs := peerNonRTCFamilies(peer)
 	s.rtcVPNCandidates(peer, path.IsWithdraw, rt, fs, func(paths []*table.Path, filtered []*table.Path) {
 		if path.IsWithdraw {
-			// Skips filtering: paths are already scoped to this RT and withdrawals
-			// do not need path attributes.
-			peer.updateRoutes(filtered...)
-			sendfsmOutgoingMsg(peer, filtered)
+			// Withdraw what was advertised and is not covered by another membership (or the
+			// default one) any more. Withdrawals do not need path attributes.
+			withdrawals := make([]*table.Path, 0, len(filtered))
+			for _, f := range filtered {
+				if f == nil || f.IsEOR() || !peer.IsFamilyEnabled(f.GetFamily()) {
+					continue
+				}
+				if peer.interestedIn(f) || !peer.hasPathAlreadyBeenSent(f) {
+					continue
+				}
+				if !f.IsWithdraw {
+					f = f.Clone(true)
+				}
+				withdrawals = append(withdrawals, f)
+			}
+			if len(withdrawals) > 0 {
+				peer.updateRoutes(withdrawals...)
+				sendfsmOutgoingMsg(peer, withdrawals)
+			}
 			return
 		}
 		if peer.getRtcEORWait() {
